@@ -21,6 +21,7 @@ import (
 	"time"
 
 	"verifh/common"
+	rv "verifh/refval"
 )
 
 type parent struct {
@@ -87,7 +88,7 @@ type soloResult struct {
 
 func (p *parent) solo(c Case, shrink bool) soloResult {
 	watch, ratio := p.r.Pick(8000, 20000), int64(20000)
-	spec := SoloSpec{Case: c, WatchMs: watch, Ratio: ratio, MemLimit: 2 << 30, OutFile: p.file("solo-out"), Shrink: shrink}
+	spec := SoloSpec{Case: c, WatchMs: watch, Ratio: ratio, MemLimit: 2 << 30, OutFile: p.file("solo-out"), PendFile: p.file("solo-pend"), Shrink: shrink}
 	sf := p.file("solo-spec")
 	writeJSON(sf, spec)
 	p.mu.Lock()
@@ -105,8 +106,33 @@ func (p *parent) solo(c Case, shrink bool) soloResult {
 	if buf, err := os.ReadFile(spec.OutFile); err == nil && json.Unmarshal(buf, &sr) == nil {
 		sr.ok = true
 	}
+	if sr.Pending == nil {
+		sr.Pending = readPending(spec.PendFile)
+	}
 	os.Remove(res.OutPath)
+	os.Remove(spec.PendFile)
 	return sr
+}
+
+// readPending reads the pending library call a child persisted before entering it (nil if none).
+func readPending(path string) map[string]any {
+	buf, err := os.ReadFile(path)
+	if err != nil {
+		return nil
+	}
+	var m map[string]any
+	if json.Unmarshal([]byte(strings.TrimSpace(string(buf))), &m) != nil || m["op"] == nil {
+		return nil
+	}
+	var node rv.Expr
+	var env []rv.Lit
+	nb, _ := json.Marshal(m["node"])
+	eb, _ := json.Marshal(m["env"])
+	if json.Unmarshal(nb, &node) == nil {
+		_ = json.Unmarshal(eb, &env)
+		m["tla"] = node.TLA(len(env))
+	}
+	return m
 }
 
 func (p *parent) addDisc(d Disc) {
@@ -120,12 +146,12 @@ func (p *parent) addDisc(d Disc) {
 
 // handleSuspect decides what a child that stopped on case c means.
 func (p *parent) handleSuspect(batch string, c Case, why string, pending map[string]any) {
-	op, sig := "?", "?"
+	op, sig := "", ""
 	if pending != nil {
 		op, _ = pending["op"].(string)
 		sig, _ = pending["sig"].(string)
 	}
-	key := "C03:" + op + ":" + sig + ":hang"
+	key := "C03:" + op + ":" + sig + ":hang" // provisional; only used to de-duplicate confirmations
 	limit := p.r.Pick(1, 2)
 	for {
 		p.mu.Lock()
@@ -165,6 +191,12 @@ func (p *parent) handleSuspect(batch string, c Case, why string, pending map[str
 			sig, _ = sr.Pending["sig"].(string)
 			pending = sr.Pending
 		}
+		if pending == nil || op == "" || sig == "" {
+			// no library call was pending: the time is being spent in the harness itself (or between
+			// calls); that is never evidence against the library
+			p.r.Inconclusive(fmt.Sprintf("%s: case %s does not finish (%s, also alone) but no library call was pending — not attributable to the library: %s", batch, c.ID, sr.Why, c.Expr.TLA(len(c.Env))))
+			return
+		}
 		key = "C03:" + op + ":" + sig + ":hang"
 		tla, _ := pending["tla"].(string)
 		desc := fmt.Sprintf("%s%s does not return: %s (reference needed %v steps; reproduced alone in a fresh process: %s)", op, sig, tla, pending["ref_steps"], sr.Why)
@@ -180,6 +212,8 @@ func (p *parent) handleSuspect(batch string, c Case, why string, pending map[str
 func (p *parent) runBatch(spec BatchSpec) {
 	spec.OutFile = p.file("out-" + spec.Name)
 	spec.CurFile = p.file("cur-" + spec.Name)
+	spec.PendFile = p.file("pend-" + spec.Name)
+	defer os.Remove(spec.PendFile)
 	spec.WatchMs, spec.Ratio, spec.MemLimit = p.r.Pick(1500, 4000), 1000, 700<<20
 	defer os.Remove(spec.OutFile)
 	defer os.Remove(spec.CurFile)
@@ -233,6 +267,9 @@ func (p *parent) runBatch(spec BatchSpec) {
 			buf, _ := json.Marshal(suspect["case"])
 			_ = json.Unmarshal(buf, &c)
 			pend, _ := suspect["pending"].(map[string]any)
+			if pend == nil && suspect["during"] == nil {
+				pend = readPending(spec.PendFile)
+			}
 			why, _ := suspect["why"].(string)
 			p.handleSuspect(spec.Name, c, why, pend)
 			next = int(suspect["i"].(float64)) + 1
@@ -471,6 +508,7 @@ func (p *parent) replay() {
 	buf, err := os.ReadFile(p.r.Replay)
 	if err != nil {
 		fmt.Println("cannot read replay file:", err)
+		os.RemoveAll(p.scratch)
 		os.Exit(3)
 	}
 	var rep struct {
@@ -479,6 +517,7 @@ func (p *parent) replay() {
 	}
 	if err := json.Unmarshal(buf, &rep); err != nil {
 		fmt.Println("bad replay file:", err)
+		os.RemoveAll(p.scratch)
 		os.Exit(3)
 	}
 	var c Case
@@ -500,6 +539,7 @@ func (p *parent) replay() {
 		}
 	} else {
 		fmt.Println("replay file holds no case")
+		os.RemoveAll(p.scratch)
 		os.Exit(3)
 	}
 	fmt.Println("replaying:", c.Expr.TLA(len(c.Env)))
@@ -508,12 +548,11 @@ func (p *parent) replay() {
 	case !sr.ok:
 		fmt.Println("solo run produced no result; output tail:", tail(sr.child.Output, 800))
 		p.r.Inconclusive("replay child produced no result")
+	case sr.Why != "" && sr.Pending == nil:
+		p.r.Inconclusive("replayed case does not finish, but no library call was pending")
 	case sr.Why != "":
-		op, sig := c.Expr.Op, "?"
-		if sr.Pending != nil {
-			op, _ = sr.Pending["op"].(string)
-			sig, _ = sr.Pending["sig"].(string)
-		}
+		op, _ := sr.Pending["op"].(string)
+		sig, _ := sr.Pending["sig"].(string)
 		p.r.Report("C03:"+op+":"+sig+":hang", "does not return: "+c.Expr.TLA(len(c.Env)), map[string]any{"class": "hang", "how": sr.Why, "case": c, "pending": sr.Pending})
 	default:
 		if len(sr.Discs) == 0 {
